@@ -18,5 +18,16 @@ for d in "${DIRS[@]}"; do
   v=$(echo "$out" | grep -c '^VIOLATION')
   cls=$(echo "$out" | grep -A1 '^VIOLATION' | grep 'class=' | head -3 | sed 's/^ *//' | tr '\n' ';')
   echo "$name: exit=$rc violations=$v $cls"
+  if [ -f "/verif/seeded/$name/meta.json" ]; then
+    python3 - "$name" "$PROP" "$rc" "$cls" <<'PY'
+import json, sys
+name, prop, rc, cls = sys.argv[1:5]
+p = f"/verif/seeded/{name}/meta.json"
+m = json.load(open(p))
+classes = sorted(set(c.split("class=")[1].split(" ")[0] for c in cls.split(";") if "class=" in c))
+m["caught_by"] = {"check": f"./run_check.sh {prop} quick", "exit": int(rc), "violation_classes": classes} if rc == "1" else {"check": f"./run_check.sh {prop} quick", "exit": int(rc), "violation_classes": [], "note": "NOT caught by this property's quick check"}
+json.dump(m, open(p, "w"), indent=1)
+PY
+  fi
   git -C "$WT" checkout -q -- .
 done
